@@ -67,6 +67,25 @@ func (f memFileWithSize) Seek(offset int64, whence int) (int64, error) {
 	return pos, err
 }
 
+// Read signals the end of the file with io.EOF like a real file; `mem.File` returns io.ErrUnexpectedEOF behind the end
+func (f memFileWithSize) Read(p []byte) (int, error) {
+	n, err := f.File.Read(p)
+	if err == io.ErrUnexpectedEOF {
+		err = io.EOF
+	}
+
+	return n, err
+}
+
+// Write ignores empty writes like a real file; `mem.File` extends the file up to the cursor for them
+func (f memFileWithSize) Write(p []byte) (int, error) {
+	if len(p) == 0 {
+		return 0, nil
+	}
+
+	return f.File.Write(p)
+}
+
 func NewCacheWrite(
 	root string,
 	cacheType string,
